@@ -16,7 +16,7 @@ go build ./... 2>/dev/null || { echo "$name: DOES-NOT-COMPILE"; exit 1; }
 suite=$(/verif/tools/repotest.sh "$wt" | tail -1)
 race=""
 grep -q -- '-race' "$sd/notes.md" 2>/dev/null && race="-race"
-cp "$sd/demo_test.go" "$wt/$dest/zz_demo_seed_test.go"
+cp "$sd/demo_test.go"* "$wt/$dest/zz_demo_seed_test.go"
 with=$(cd "$wt/$dest" && timeout 600 go test $race -vet=off -count=1 -run 'Seed|seed|C[0-9][0-9]' . 2>&1 | grep -v TRACE | grep -E '^(ok|FAIL|---|panic|fatal)' | head -3 | tr '\n' ' ')
 git checkout -q -- . 
 without=$(cd "$wt/$dest" && timeout 600 go test $race -vet=off -count=1 -run 'Seed|seed|C[0-9][0-9]' . 2>&1 | grep -v TRACE | grep -E '^(ok|FAIL|---|panic|fatal)' | head -3 | tr '\n' ' ')
